@@ -122,6 +122,14 @@ pub fn subs() -> Vec<Sub> {
 pub fn run(env: &mut Env) -> RunResult {
     env.run_inputs(SUB_B3, &crate::checks::c04::vectors(crate::model::Fam::V3))?;
     env.run_inputs(SUB_B5, &crate::checks::c04::vectors(crate::model::Fam::V5))?;
+    // encodings of the boundary-size constructions (sized.rs) as inputs
+    let lim = env.tier.sel(21_000_000usize, 140_000_000usize);
+    let z3 = crate::sized::encoded_inputs::<V3>(env.thorough(), lim);
+    let k3 = z3.len() as u64;
+    env.run_enum(SUB_B3, k3, false, move |i| z3[i as usize].clone())?;
+    let z5 = crate::sized::encoded_inputs::<V5>(env.thorough(), lim);
+    let k5 = z5.len() as u64;
+    env.run_enum(SUB_B5, k5, false, move |i| z5[i as usize].clone())?;
     let n = env.tier.sel(25_000, 400_000);
     env.run_tapes(SUB_V3, n, 200)?;
     env.run_tapes(SUB_V5, n * 3, 300)?;
